@@ -24,11 +24,11 @@ are claimed in MANIFEST.json (C15 at level `other`, the rest at level `proof`).
   3/4·OPT − 4 for the covering algorithms (`Cover23`, `Cover34`: parametrised staircase weightings found by the provers).
 * LPT's exact max-min ratio (3k−1)/(4k−2) (Csirik–Kellerer–Woeginger) is proved **for every k** (`MaxMin5.greedy_maxmin`; the "mixed case" that
   `MaxMin3` / `MaxMin4` left open for k ≥ 5 is closed by a heavy-bin weighting, `mixed_all`): C08 is PARTIAL only for multifit's constant.
-* Still only certified in part (verified oracle on every run): multifit's 1.22 — proved: 5/4 for every k, 1.22 itself for k ≤ 8 and, for every k, when
-  no item lies strictly between 0.22·k/(k−1)·OPT and 0.26·OPT, 11/9 for k ≤ 9, 16/13 for k ≤ 12 and the constant (5k−2)/(4k−1) < 5/4 for every k (`MultiFit122`, `MultiFit122B`); C09's absolute ⌊1.7·OPT⌋ — proved:
+* Still only certified in part (verified oracle on every run): multifit's 1.22 — proved: 5/4 for every k, 1.22 itself for k ≤ 11 and, for every k, when
+  no item lies strictly between 0.22·k/(k−1)·OPT and 0.26·OPT, 11/9 for k ≤ 11, 16/13 for k ≤ 16 and the constant (5k−2)/(4k−1) < 5/4 for every k (`MultiFit122`, `MultiFit122B`, `MultiFit122C`); C09's absolute ⌊1.7·OPT⌋ — proved:
   1.7·OPT + 0.6 for first fit, best fit and every any-fit rule, the absolute bound for OPT ≤ 3, for OPT ≡ 0, 3, 6, 9 (mod 10) and whenever at most OPT−3 items
-  exceed half the bin size, and in most of the remaining cases when the output has no bin holding a single item of size in (5B/12, B/2] (`FF17Abs`, `FF17AbsB`); FFD's 11/9 — proved: 3/2 absolute, 5/4·OPT + 1, 11/9 outside one size range of the last bin's first item, and the
-  reduction of that range to one statement about normal forms (`FFD119Gap`, `FFD119GapB`); anything about CBC; CPython set order;
+  exceed half the bin size, and in most of the remaining cases when the output has no bin holding a single item of size in (5B/12, B/2] (`FF17Abs`, `FF17AbsB`, `FF17AbsC`); FFD's 11/9 — proved: 3/2 absolute, 5/4·OPT + 1, 11/9 outside one size range of the last bin's first item, and the
+  reduction of that range to one statement about normal forms (`FFD119Gap`, `FFD119GapB`, `FFD119GapC`; note there: the reduction is stated for every any-fit rule on a sorted list, for which 11/9 may be false — worst-fit-decreasing — so the last step needs a first-fit / best-fit-specific invariant); anything about CBC; CPython set order;
   interpreter-level state (C15).  Items in progress are listed per property below as `partial`.
 * One more known finding: **KF5** (C11): with `use_heuristic_3=True` and `MinimizeLargestSum`, when heuristic 3 fires on
   the first branch the first solution is not the LPT partition (`[1,1,2]`, 3 bins: sums `[0,2,2]` instead of `[1,1,2]`);
